@@ -222,9 +222,14 @@ def c12_r1(ctx):
                 yield bad("C12-R1", key, at(f), "get_native_path can return %s, which is not root_path.join(normalize_path(..))" % expr_str(e)[:240])
 
 
+PATH_EDITS = ("with_extension", "with_file_name", "set_extension", "set_file_name", "join", "push", "pop", "parent", "ancestors", "with_added_extension")
+
+
 def _unsanitised_leaves(prog, fn, e, params):
     """Parameter places reachable in the backward slice of e without passing
-    through a get_native_path call."""
+    through a get_native_path call; a sanitised path that is edited afterwards
+    (`native.with_extension(..)`, `.parent()`, `.join(..)`) is reported as `edited:<api>`:
+    the edit can step out of the root again."""
     eb = ExprBuilder(prog, fn)
     names = {vn: l for vn, l, proj in fn.var_places if not proj}
     out = []
@@ -237,6 +242,8 @@ def _unsanitised_leaves(prog, fn, e, params):
             nm = callee_name(x) or ""
             if nm.endswith("::get_native_path"):
                 continue  # sanitised subtree
+            if nm.split("::")[-1] in PATH_EDITS and ("Path" in nm) and nm.startswith(("camino::", "std::path::")):
+                out.append("edited:" + nm.split("::")[-1])
             st.extend(x[3])
         elif k == "place":
             root = x[1]
@@ -990,3 +997,29 @@ def c13_q4(ctx):
                 yield ok("C13-Q4", key, at(f, t["span"]["line"]), "%s on file 1 is dominated by a complete read of file 2" % cal.split("::")[-1])
             else:
                 yield bad("C13-Q4", key, at(f, t["span"]["line"]), "%s truncates / overwrites file 1 before file 2 has been read completely: a read failure (or file 1 == file 2) leaves file 1 changed although the request failed" % cal)
+
+
+# ================================================================ C13-Q5
+def is_ancestor_creating_call(cal):
+    """A filesystem call that silently creates missing parent directories."""
+    return cal in ("std::fs::create_dir_all", "tokio::fs::create_dir_all") or cal.endswith("DirBuilder::recursive")
+
+
+@rule("C13", "C13-Q5", 1, "a filestore operation acts on the one object its request names: no primitive that silently creates missing ancestors (a Create Directory whose parent is missing must fail and change nothing)")
+def c13_q5(ctx):
+    fns = [f for f in ctx.prog.by_norm.values() if f.crate == "cfdp_core" and ((f.impl_trait or "").endswith("filestore::FileStore") or (f.in_trait or "").endswith("filestore::FileStore"))]
+    if not fns:
+        raise Anchor("C13-Q5", "impl FileStore")
+    allf = []
+    for f in fns:
+        allf.append(f)
+        allf.extend(ctx.prog.closures_of(f))
+    n = 0
+    for f in allf:
+        for b, t in f.all_calls():
+            d, r, _ = ctx.prog.callee_of(t)
+            cal = r or d or ""
+            if is_ancestor_creating_call(cal):
+                n += 1
+                yield bad("C13-Q5", "%s:%s" % (short(f.root or f.norm), cal.split("::")[-1]), at(f, t["span"]["line"]), "%s creates every missing ancestor: the request succeeds (and changes the filestore) where its precondition - the parent exists - does not hold" % cal)
+    yield ok("C13-Q5", "filestore:no-ancestor-creation", "%d functions" % len(allf), "%d ancestor-creating calls" % n, nontrivial=(n == 0))
